@@ -254,8 +254,14 @@ class Execution:
         return False
 
     def state_key(self) -> Tuple:
+        # under a preemption bound the actor that ran last is part of the state: continuing it is free, switching
+        # away from it costs a preemption, so two arrivals at the same storage / actor state with different running
+        # actors have different continuations within the same remaining budget
+        running = None
+        if self.ex.bound is not None and self.last is not None and self._enabled(self.last):
+            running = self.last.name
         return (self.ex.world.digest(), round(ENV.clock, 6), self.jumps,
-                tuple(sorted(a.key() for a in self.actors)))
+                tuple(sorted(a.key() for a in self.actors)), running)
 
     def run(self) -> "Execution":
         ex = self.ex
